@@ -226,6 +226,12 @@ theorem ask_of (r : Req) (hq : quietK r.kind = true) (P : V → Prop) :
         fun hx => by simp [faultX_raise, hx]⟩
 
 
+theorem askHook_of (r : Req) (hq : quietK r.kind = true) (P : V → Prop) :
+    ⦃fun w => ⌜OF P w⌝⦄ askHook r
+    ⦃post⟨fun _ w => ⌜OF P w⌝,
+          fun e w => ⌜OF P w ∧ (faultOn r e = true → fault w.trace = true)⌝⟩⦄ :=
+  askHook_triple r (ask_of r hq P) (fun w h => presil_cases (OF P) w (fun _ => h))
+
 macro "of_close" : tactic => `(tactic| all_goals (
   (try subst_vars) <;> (try intros) <;>
   first
@@ -240,7 +246,7 @@ variable (cfg : Cfg) (P : V → Prop)
 /-- `_emit_breaker_event`: only a BaseException-only kind raised by a hook gets out -/
 theorem emitBreakerEvent_of (ev : Option Event) (st : CState) (k : Option EClass) :
     ⦃fun w => ⌜OF P w⌝⦄ emitBreakerEvent cfg ev st k ⦃post⟨fun _ w => ⌜OF P w⌝, fun _ w => ⌜fault w.trace = true⌝⟩⦄ := by
-  have h := fun r hq => ask_of r hq P
+  have h := fun r hq => askHook_of r hq P
   mvcgen [emitBreakerEvent, swallowException, askMetric, askLog, h]
   of_close
 
